@@ -4,6 +4,7 @@ import (
 	"fmt"
 	"go/types"
 	"regexp"
+	"strconv"
 	"strings"
 
 	"golang.org/x/tools/go/ssa"
@@ -347,14 +348,14 @@ func (x *fnCtx) doGo(st *State, fr *Frame, g *ssa.Go) {
 // ---------------- contracts at call sites ----------------
 
 type specEnv struct {
-	pkg    string // package path whose names unqualified types refer to (callee contracts)
-	x      *fnCtx
-	st     *State
-	heap   *Heap // heap used for reads
-	old    *Heap // heap for old(...)
-	names  map[string]nameBind
-	bound  map[string]*Val
-	fr     *Frame
+	pkg   string // package path whose names unqualified types refer to (callee contracts)
+	x     *fnCtx
+	st    *State
+	heap  *Heap // heap used for reads
+	old   *Heap // heap for old(...)
+	names map[string]nameBind
+	bound map[string]*Val
+	fr    *Frame
 }
 
 func (x *fnCtx) applyContract(st *State, fr *Frame, in ssa.Instruction, con *Contract, sig *types.Signature, callee *ssa.Function, args []*Val, rt types.Type, full string) *Val {
@@ -458,7 +459,7 @@ func (x *fnCtx) applyContract(st *State, fr *Frame, in ssa.Instruction, con *Con
 			// an ensures that mentions the callee's own ghost bindings is not usable by callers
 			defer func() {
 				if r := recover(); r != nil {
-					if ee, ok := r.(engineError); ok && strings.Contains(ee.msg, "unknown identifier") {
+					if ee, ok := r.(engineError); ok && strings.Contains(ee.msg, "unknown identifier") && mentionsBind(con, ee.msg) {
 						x.eng.logAbs("%s: postcondition of %s not usable at the call site (%s)", x.short, con.Func, cl.Text)
 						return
 					}
@@ -469,6 +470,19 @@ func (x *fnCtx) applyContract(st *State, fr *Frame, in ssa.Instruction, con *Con
 		}()
 	}
 	return res
+}
+
+// mentionsBind: the unknown identifier of msg is one of the callee's own trace bindings
+func mentionsBind(con *Contract, msg string) bool {
+	if strings.Contains(msg, "\"$") { // the callee's loop variables ($i, $v, $k)
+		return true
+	}
+	for _, td := range con.Traces {
+		if td.As != "" && strings.Contains(msg, strconv.Quote(td.As)) {
+			return true
+		}
+	}
+	return false
 }
 
 func (x *fnCtx) pureResult(full string, rt types.Type, args []*Val) *Val {
@@ -594,6 +608,11 @@ func (x *fnCtx) callSiteClauses(st *State, fr *Frame, in ssa.Instruction, c *ssa
 				return False
 			}
 			if isIface(v.T) && isIface(target.T) {
+				// values of another static interface type (a stream handle vs a filespace) are
+				// other objects
+				if !types.Identical(v.T, target.T) {
+					return False
+				}
 				return And(Eq(v.L[0], target.L[0]), Eq(v.L[1], target.L[1]), Ne(v.L[0], IntLit(0)))
 			}
 			return False
